@@ -37,7 +37,7 @@ def cases(tier, seed, shard, nshards):
             kw.update(steps=8000, npipes=40, integer_sizes=False, drain=3000)  # float drift
         yield _exec.mix_case(rng, i, **kw)
     for i in range(N_SIM[tier]):
-        yield _sim.random_sim_case(rng, small=True, algos=("priority", "priority", "overbook", "overbook", "naive", "priority-pool"),
+        yield _sim.random_sim_case(rng, small=True, algos=("priority", "priority", "overbook", "overbook", "naive", "priority-pool", "vrandom", "vrandom"),
                                    mem_levels=[0.05, 0.15, 0.3, 0.6, 0.9])
     if tier == "thorough" and shard < 4:
         yield _sim.regression_case(shard)
